@@ -1528,14 +1528,24 @@ func ruleAnyXmlTags(p *Prog, r *Report) {
 			for _, in := range instrsByPos(w.f) {
 				switch x := in.(type) {
 				case *ssa.IndexAddr:
-					if x.X != ssa.Value(w.prm) {
+					base, sliced := x.X, false
+					for {
+						sl, ok := base.(*ssa.Slice)
+						if !ok {
+							break
+						}
+						base, sliced = sl.X, true
+					}
+					if base != ssa.Value(w.prm) {
 						continue
 					}
-					if k, ok := constInt(x.Index); !ok || k != 0 {
+					k, isConst := constInt(x.Index)
+					if isConst && k != 0 && !sliced {
 						continue
 					}
 					nReads++
-					if !lt.ok || !z.leq(x, lt, zterm{0, 1, true}) {
+					// a read through a loop counter or through a sub-slice of the list is not confined as far as this rule can tell
+					if !isConst || sliced || !lt.ok || !z.leq(x, lt, zterm{0, 1, true}) {
 						open = p.Pos(x.Pos())
 					}
 				case *ssa.Call:
